@@ -749,6 +749,100 @@ theorem foldReqH_pure (ns : List String) : ∀ (s : Store) (acc : Acc) (a : ReqA
       refine ⟨acc', ?_, by simpa using hget'⟩
       simp only [foldReqH, hstep]; exact hfold
 
+/-! ### bytes -/
+
+theorem all_bytes (P : UInt8 → Prop) (h : ∀ n, n < 256 → P (UInt8.ofNat n)) (b : UInt8) : P b := by
+  have := h b.toNat b.toNat_lt
+  simpa using this
+
+theorem charByte_byteChar (b : UInt8) : charByte (byteChar b) = b := by
+  apply all_bytes (fun b => charByte (byteChar b) = b)
+  decide +kernel
+
+theorem isTchar_byteChar (b : UInt8) : isTchar (byteChar b) = isTcharB b := by
+  apply all_bytes (fun b => isTchar (byteChar b) = isTcharB b)
+  decide +kernel
+
+theorem keep_byteChar (b : UInt8) :
+    (byteChar b != '\r' && byteChar b != '\n') = (b != 0x0D && b != 0x0A) := by
+  apply all_bytes (fun b => (byteChar b != '\r' && byteChar b != '\n') = (b != 0x0D && b != 0x0A))
+  decide +kernel
+
+theorem toBytes_ofBytes (bs : Bytes) : toBytes (ofBytes bs) = bs := by
+  unfold toBytes ofBytes
+  rw [String.toList_ofList, List.map_map]
+  have : (charByte ∘ byteChar) = id := by funext b; exact charByte_byteChar b
+  rw [this, List.map_id]
+
+theorem validName_ofBytes (k : Bytes) : validName (ofBytes k) = validNameB k := by
+  unfold validName validNameB ofBytes
+  rw [String.toList_ofList, List.all_map]
+  have h1 : (k.map byteChar != []) = (k != []) := by cases k <;> rfl
+  have h2 : (isTchar ∘ byteChar) = isTcharB := by funext b; exact isTchar_byteChar b
+  rw [h1, h2]
+
+theorem stripCRLF_ofBytes (v : Bytes) :
+    stripCRLF (ofBytes v) = ofBytes (v.filter fun b => b != 0x0D && b != 0x0A) := by
+  unfold stripCRLF ofBytes
+  rw [String.toList_ofList, List.filter_map]
+  have : ((fun c : Char => c != '\r' && c != '\n') ∘ byteChar) = fun b => b != 0x0D && b != 0x0A := by
+    funext b; exact keep_byteChar b
+  rw [this]
+
+theorem sanitize_embed (h : List (Bytes × Bytes)) :
+    sanitizeHdrs (h.map fun kv => (ofBytes kv.1, ofBytes kv.2))
+      = (sanitizeB h).map fun kv => (ofBytes kv.1, ofBytes kv.2) := by
+  unfold sanitizeHdrs sanitizeB
+  rw [List.filter_map, List.map_map, List.map_map]
+  have hf : ((fun kv : String × String => validName kv.1) ∘ fun kv : Bytes × Bytes => (ofBytes kv.1, ofBytes kv.2))
+      = fun kv => validNameB kv.1 := by
+    funext kv; exact validName_ofBytes kv.1
+  rw [hf]
+  apply List.map_congr_left
+  intro kv _
+  simp [stripCRLF_ofBytes]
+
+theorem flatMap_embed (l : List (Bytes × Bytes)) :
+    (l.map fun kv => (kv.1.map byteChar, kv.2.map byteChar)).flatMap
+        (fun kv => kv.1 ++ ':' :: kv.2 ++ ['\n'])
+      = (l.flatMap fun kv => kv.1 ++ 0x3A :: kv.2 ++ [0x0A]).map byteChar := by
+  have hc : byteChar 0x3A = ':' := by decide
+  have hn : byteChar 0x0A = '\n' := by decide
+  induction l with
+  | nil => rfl
+  | cons p ps ih =>
+    simp only [List.map_cons, List.flatMap_cons, List.map_append, ih]
+    simp [hc, hn]
+
+theorem dumpChars_embed (l : List (Bytes × Bytes)) :
+    dumpChars (l.map fun kv => (kv.1.map byteChar, kv.2.map byteChar)) = (dumpSpecB l).map byteChar := by
+  have hn : byteChar 0x0A = '\n' := by decide
+  cases l with
+  | nil => simp [dumpChars, dumpSpecB, hn]
+  | cons p ps => exact flatMap_embed (p :: ps)
+
+theorem dumpHeaders_embed (h : List (Bytes × Bytes)) :
+    dumpHeaders (h.map fun kv => (ofBytes kv.1, ofBytes kv.2)) = ofBytes (dumpSpecB (sanitizeB h)) := by
+  unfold dumpHeaders
+  rw [sanitize_embed, List.map_map]
+  have : ((fun kv : String × String => (kv.1.toList, kv.2.toList)) ∘ fun kv : Bytes × Bytes => (ofBytes kv.1, ofBytes kv.2))
+      = fun kv => (kv.1.map byteChar, kv.2.map byteChar) := by
+    funext kv; simp [ofBytes, String.toList_ofList]
+  rw [this, dumpChars_embed]
+  rfl
+
+theorem dumpB_eq (h : List (Bytes × Bytes)) : dumpB h = dumpSpecB (sanitizeB h) := by
+  unfold dumpB
+  rw [dumpHeaders_embed, toBytes_ofBytes]
+
+theorem parseB_dumpB (h : List (Bytes × Bytes)) : parseB (dumpB h) = sanitizeB h := by
+  unfold parseB
+  rw [dumpB_eq, ← dumpHeaders_embed, parse_dumpHeaders, sanitize_embed, List.map_map]
+  have : ((fun kv : String × String => (toBytes kv.1, toBytes kv.2)) ∘ fun kv : Bytes × Bytes => (ofBytes kv.1, ofBytes kv.2))
+      = id := by
+    funext kv; simp [toBytes_ofBytes]
+  rw [this, List.map_id]
+
 /-! ### legacy mode -/
 
 theorem foldl_merge_lookup (edits : List Hdrs) (h : Hdrs) (k : String) :
